@@ -484,7 +484,7 @@ func runC01(c *Ctx) {
 	c.Lap("compare")
 
 	// ---- correspondence with the Coq model
-	modelSrc, modelGo, modelSkipped := 0, 0, 0
+	modelSrc, modelGo, modelSkipped, modelK1 := 0, 0, 0, 0
 	if oracleHas(c, "C01") {
 		or := c.Oracle()
 		corrBudget := 2
@@ -536,6 +536,52 @@ func runC01(c *Ctx) {
 				}
 			}
 		}
+		// K1: structure. The Go fc emits (go/parser, canonicalised, types erased) must be textually
+		// the model's compile output. A difference with equal behaviour = the correspondence broke.
+		k1Budget := 2
+		srv := c.StartFcSrv()
+		fullFoi, _ := os.ReadFile(c.PkgAllFoi())
+		for _, pc := range cases {
+			if pc.P.RawFo != "" || pc.P.Hazard != "" || usesExtPartial(pc.P) || pc.FcErr != "" {
+				continue
+			}
+			want := or.AskRaw("C01", "(compile "+pc.P.ToSexp()+")")
+			if strings.HasPrefix(want, "ERR") || strings.HasPrefix(want, "STUCK") || want == "FUEL" {
+				c.Count("model_compile_unavailable")
+				continue
+			}
+			tr := srv.Transpile(SrcFile{"pkg_all.foi", string(fullFoi)}, SrcFile{"m.fo", ToFolang(pc.P)})
+			if !tr.Ok {
+				continue
+			}
+			got, err := gcCanonFile(tr.Outs["gen_m.go"])
+			if err != nil {
+				continue
+			}
+			modelK1++
+			c.Compared(1)
+			got, want = gcNormalise(got), gcNormalise(strings.TrimSpace(want))
+			if got != want {
+				c.Disagree()
+				c.Count("k1_structure_differs")
+				if k1Budget > 0 {
+					k1Budget--
+					// first difference, for the replay
+					i := 0
+					for i < len(got) && i < len(want) && got[i] == want[i] {
+						i++
+					}
+					lo := i - 60
+					if lo < 0 {
+						lo = 0
+					}
+					c.Violate("corr-compile", "correspondence broke: the Go emitted by fc differs structurally from Compile.compile_prog (behaviour compared separately)",
+						map[string]any{"broken": "correspondence Coq model (compile, K1 structure) vs fc", "program_sexp": pc.P.ToSexp(), "source": ToFolang(pc.P),
+							"fc_canonical_near_difference": clip(got[lo:], 300), "model_canonical_near_difference": clip(want[lo:], 300)}, true)
+				}
+			}
+		}
+		srv.Close()
 	} else {
 		c.Note("the C01 oracle driver is not present in bin/fomodel: no program was compared with the Coq model in this run")
 	}
@@ -558,6 +604,7 @@ func runC01(c *Ctx) {
 	ex["compared_with_reference_interpreter"] = c.Res.Compared
 	ex["compared_with_coq_run_src"] = modelSrc
 	ex["compared_with_coq_run_go"] = modelGo
+	ex["compared_with_coq_compile_structure"] = modelK1
 	ex["not_sent_to_coq_model"] = modelSkipped
 	ex["generator_stats"] = GenStats
 	ex["profile"] = prof
